@@ -62,7 +62,7 @@ func diskHash(w *World) uint64 {
 
 func c10Isolation(c *Chooser, env *Env, defective, faults bool) *Outcome {
 	o := &Outcome{}
-	opts := GenOpts{Ties: true, Clone: true, GenIface: true, Symlinks: true, Corpus: true, Loose: true, SelfArg: true, PathConfigs: true, MaxRepos: 3, MaxFiles: 3, Defective: defective, Projects: defective}
+	opts := GenOpts{Ties: true, Clone: true, GenIface: true, Symlinks: true, DirLinks: true, Corpus: true, Loose: true, SelfArg: true, PathConfigs: true, MaxRepos: 3, MaxFiles: 3, Defective: defective, Projects: defective}
 	mw := GenMulti(c, opts)
 	w := mw.World
 	o.World = w
@@ -452,7 +452,10 @@ func c10Attribution(o *Outcome, mw *MultiWorld) *Violation {
 	}
 	for i, f := range mw.AbsArgs {
 		want := mw.RepoOf[f]
-		if roots[i] != want {
+		// (a repository reached through a symbolic link to its root is the same repository)
+		rGot, _ := mw.Disk.Resolve(roots[i], true)
+		rWant, _ := mw.Disk.Resolve(want, true)
+		if roots[i] != want && !(roots[i] != "" && want != "" && rGot == rWant) {
 			var order []string
 			for _, a := range mw.Files[:i+1] {
 				order = append(order, a)
